@@ -77,6 +77,8 @@ class CSlli(RiscvcInstruction):
     syntax = Syntax(["c", ".", "slli", " ", rd, ",", " ", rs, ",", " ", imm])
 
     def encode(self):
+        if self.rs.num != self.rd.num:
+            raise ValueError(f"Cannot encode rd={self.rd} and rs={self.rs}")
         if self.imm not in range(0, 32):
             raise ValueError(f"Cannot encode {self.imm} in c.slli [0,31]")
         tokens = self.get_tokens()
@@ -89,6 +91,8 @@ class CSlli(RiscvcInstruction):
 
 class CiBase(RiscvcInstruction):
     def encode(self):
+        if self.rs.num != self.rd.num:
+            raise ValueError(f"Cannot encode rd={self.rd} and rs={self.rs}")
         tokens = self.get_tokens()
         tokens[0][0:2] = 0b01
         tokens[0][2:7] = self.imm
